@@ -7,7 +7,7 @@ C08.3  the hoisting key covers every field: Printable*Key converters bind and us
 C08.4  (TypeScript) digests read structure only: no hash()/hash256() reads metadata or names; key iteration is sorted
 """
 import re
-from facts import walk, WASM
+from facts import walk, walk_inlined, WASM
 
 LEVEL = "other"
 
@@ -76,10 +76,12 @@ def all_of_merge_rule(cx, rep, rid):
         rep.anchor_missing(rid, "Runtype::all_of")
     else:
         tree = F.hir[ao[0].id]
+        # the merge may live in all_of itself or in private helpers it delegates to
+        nodes = [n for n, _o in walk_inlined(F, ao[0].id, private_only=True)]
         # the merge keeps the last writer of a key (extend/insert into the accumulated key-value list):
         # that is order-independent only if colliding values were compared for equality as stored
-        cmps = [n for n in walk(tree["body"]) if n["k"] == "Binary" and n["op"] in ("Ne", "Eq") and "Optionality" in (n["l"].get("ty") or "") + (n["r"].get("ty") or "")]
-        allc = [n for n in walk(tree["body"]) if n["k"] == "Binary" and n["op"] in ("Ne", "Eq") and n["l"]["k"] != "Lit" and n["r"]["k"] != "Lit"
+        cmps = [n for n in nodes if n["k"] == "Binary" and n["op"] in ("Ne", "Eq") and "Optionality" in (n["l"].get("ty") or "") + (n["r"].get("ty") or "")]
+        allc = [n for n in nodes if n["k"] == "Binary" and n["op"] in ("Ne", "Eq") and n["l"]["k"] != "Lit" and n["r"]["k"] != "Lit"
                 and "usize" not in (n["l"].get("ty") or "")]
         def plain(e):
             while e["k"] in ("AddrOf", "Unary"):
@@ -90,9 +92,9 @@ def all_of_merge_rule(cx, rep, rid):
                "Runtype::all_of merges object members with last-writer-wins; the collision test must compare the stored property values themselves (optionality included), found comparisons %s: members that differ in what is not compared are merged in source order, so `A & B` and `B & A` yield different validators" % (
                    [(c["l"].get("ty"), c["l"]["k"], c["r"]["k"]) for c in allc]), ao[0].loc(), sample={"comparisons": len(cmps)})
         # the accumulated member list, by type (a collection of (key, Optionality<Runtype>) pairs)
-        ext = [n for n in walk(tree["body"]) if n["k"] == "MethodCall" and n["method"] in ("extend", "insert", "push")
+        ext = [n for n in nodes if n["k"] == "MethodCall" and n["method"] in ("extend", "insert", "push")
                and "Optionality<" in (n.get("recv_ty") or "") and any(x["k"] == "Path" and x.get("res") == "local" for x in walk(n["recv"]))]
-        early = [n for n in walk(tree["body"]) if n["k"] == "Ret"]
+        early = [n for n in nodes if n["k"] == "Ret"]
 
         def builds_all_of(e, depth=0):
             """the expression constructs RuntypeKind::AllOf, directly or through a private constructor helper that
@@ -111,6 +113,36 @@ def all_of_merge_rule(cx, rep, rid):
         rep.ob(rid, "all_of/conflict-keeps-intersection", len(ext) >= 1 and len(early) >= 1 and any(builds_all_of(r) for r in early),
                "on a collision all_of must keep the members as an (order-free) AllOf set instead of merging", ao[0].loc())
 
+
+
+def symmetric_merge_rule(cx, rep, rid):
+    """Binary merge / selection functions over IR nodes are applied to members in set order (BTreeSet), which has
+    nothing to do with meaning, so they must treat their two operands alike.  Decided part: the payload they return
+    (followed backwards through values whose type mentions the payload type only, not through tests) reaches both
+    same-typed operands or neither; a function that can hand back its left operand but never its right one gives a
+    different validator when the members are spelled, named or ordered differently."""
+    import collections
+    from mirflow import FnFlow, Origins
+    F = cx.rs
+    n = 0
+    for g, f in sorted(F.fns.items()):
+        if not f.mir or f.kind == "Closure" or not (f.file or "").endswith(("print/printer.rs", "ast/runtype.rs")):
+            continue
+        ins = f.inputs or []
+        cnt = collections.Counter(t for t in ins if t.startswith("&") and not t.startswith("&mut") and "Runtype" in t)
+        same = [t for t, k in cnt.items() if k == 2]
+        if len(same) != 1 or "Runtype" not in (f.output or ""):
+            continue
+        idx = [i + 1 for i, t in enumerate(ins) if t == same[0]]
+        O = Origins(FnFlow(f), keep=lambda ty: "Runtype" in ty or ty.startswith("{closure") or ty.startswith("[closure"))
+        got = {o[1] for o in O.of_local(0) if o[0] == "param"} & set(idx)
+        n += 1
+        names = [f.mir["locals"][i].get("name") or "_%d" % i for i in idx]
+        rep.ob(rid, "%s/operands" % f.id.rsplit("::", 1)[-1], got == set(idx) or not got,
+               "%s can return (a part of) its operand `%s` but never `%s`: the two operands arrive in set order, so the result depends on how the members are named or ordered" % (
+                   f.id, "`, `".join(f.mir["locals"][i].get("name") or "?" for i in sorted(got)), "`, `".join(f.mir["locals"][i].get("name") or "?" for i in sorted(set(idx) - got))),
+               f.loc(), sample={"fn": f.id, "operands": names, "returned_payload_reaches": sorted(got)})
+    rep.floor(rid, "binary merge functions over Runtype operands", n, 2)
 
 
 def run(cx, rep):
@@ -248,6 +280,8 @@ def run(cx, rep):
     # ---------------------------------------------------------------- C08.5
     rep.rule("C08.5", "merging intersection members into one object is order-independent")
     all_of_merge_rule(cx, rep, "C08.5")
+    rep.rule("C08.6", "binary merges of set-ordered members treat both operands alike")
+    symmetric_merge_rule(cx, rep, "C08.6")
     # ---------------------------------------------------------------- C08.4
     rep.rule("C08.4", "digests (hash / hash256) read structure only and iterate keys in sorted order")
     from rules import ts_common
